@@ -1,6 +1,11 @@
 package loadbalancer
 
-import "net/http"
+import (
+	"net/http"
+
+	"github.com/0xReLogic/Helios/internal/config"
+	"github.com/0xReLogic/Helios/internal/verifrt"
+)
 
 // Exported wrappers so that harnesses in other packages (cmd/helios) can build
 // the same scripted balancer and connection model.
@@ -31,3 +36,41 @@ func VerifLastBackend() (int, int) {
 
 // VerifAllowInterim: whether scripted backends may send an interim 103 before the final status.
 func VerifAllowInterim(on bool) { verifNoInterim = !on }
+
+// VerifUpgradeHadDeadline: whether the last Upgrade request reached the reverse proxy with a deadline on its context.
+func VerifUpgradeHadDeadline() bool { return verifUpgradeDeadline }
+
+// VerifConfiguredLB builds the balancer the way main does - through the real
+// NewLoadBalancer from a configuration - and then puts the scripted backend
+// behind every backend's reverse proxy. The optional features are written into
+// the configuration sections (so the real setupRateLimiter / setupCircuitBreaker /
+// createHealthChecker run). c keeps whatever the caller already put into it
+// (server timeouts, plugins, logging).
+func VerifConfiguredLB(c *config.Config, features int) *LoadBalancer {
+	keep := verifNoInterim
+	c.LoadBalancer.Strategy = "round_robin"
+	c.Backends = []config.BackendConfig{{Name: "b0", Address: "http://b0:80", Weight: 1}}
+	if features&verifFeatLimiter != 0 {
+		c.RateLimit.Enabled = true
+		c.RateLimit.MaxTokens = verifrt.IntRange("max_tokens", 1, 2)
+		c.RateLimit.RefillRate = 1
+	}
+	if features&verifFeatBreaker != 0 {
+		c.CircuitBreaker = config.CircuitBreakerConfig{Enabled: true, MaxRequests: 1, IntervalSeconds: 60, TimeoutSeconds: 30,
+			FailureThreshold: verifrt.IntRange("failure_threshold", 1, 2), SuccessThreshold: 1}
+	}
+	if features&verifFeatPassive != 0 {
+		c.HealthChecks.Passive = config.PassiveHealthCheckConfig{Enabled: true, UnhealthyThreshold: verifrt.IntRange("unhealthy_threshold", 1, 2), UnhealthyTimeout: 30}
+	}
+	lb, err := NewLoadBalancer(c)
+	verifrt.Assert(err == nil && lb != nil, "the balancer starts from a valid configuration")
+	for k := range verifProxyHits {
+		delete(verifProxyHits, k)
+	}
+	for _, b := range lb.strategy.GetBackends() {
+		b.ReverseProxy.Transport = &verifFakeRT{name: b.Name}
+		b.ReverseProxy.ErrorLog = verifQuietLog
+	}
+	verifNoInterim = keep
+	return lb
+}
